@@ -30,3 +30,18 @@ def mc_and_replay(v, wd, universe, k, big, name=None, workers=12, timeout=3000, 
     rep = vlib.load_report(rep_path)
     v.add_report(rep, "M2:MC_Net/" + name, traces=len(rest))
     return r, rep
+
+
+def corpus_stage(v, wd, seed, n_lists, reqs_per_list=40, name="corpus"):
+    """M3 at realistic scale: real lists + synthetic threshold families, linear-scan oracle on the
+    implementation's own matcher combined by the spec (Trace_C01), plus spec-verified hit claims."""
+    tr = os.path.join(wd, "%s.ndjson" % name)
+    summ = json.loads(vlib.run_harness(["record", "c01", tr, str(seed), str(n_lists), str(reqs_per_list)], timeout=3000))
+    rt, done, mism = vlib.trace_validate("Trace_C01", tr, wd, name, timeout=3000, heap="8g")
+    vlib.require(done["n"] == summ["events"], "corpus trace length mismatch")
+    v.add_tlc(rt)
+    v.add_report({"evaluations": summ["events"], "nontrivial": summ["nontrivial"], "samples": [
+        {"url": s.get("url"), "list": s.get("list"), "hits": [h.get("line") for h in s.get("hits", [])][:4]} for s in summ["samples"]],
+                  "mismatches": mism, "counters": summ.get("counters", {})}, "M3:Trace_C01/" + name, traces=1)
+    vlib.require(v.violations or summ["nontrivial"] > 50, "corpus stage: almost no request hit any rule")
+    return summ
